@@ -52,9 +52,3 @@ Definition obs_final (d : defaults) (start : Z) (s : list (list dunit)) : list (
   map (map (obs_final_unit d)) (autofill_stream d start s).
 Definition check_final (d : defaults) (c : Z * list (list dunit) * list (list (list Z))) : bool :=
   let '(start, s, o) := c in zlll_eqb (obs_final d start s) o.
-
-(* does a transform_parameters dict still carry ETP after the passes (full pipeline, per unit) *)
-Definition obs_etp (d : defaults) (s : list (list dunit)) : list (list Z) :=
-  map (map (fun m => match get_tp d (m_unit m) with
-                     | Some t => has_etp t
-                     | None => -1 end)) (prepare d s).
